@@ -16,7 +16,8 @@ def emit(out, tier):
         out.violation("spec:%s" % r.violated, "Process.tla violates %s" % r.violated, r.out[-3000:])
     for cfg, what in (("MC_ProcessBroken.cfg", "a read before SetGlobals"), ("MC_ProcessBrokenOpt.cfg", "a correction applied to the caller's options"),
                       ("MC_ProcessBrokenTab.cfg", "an override written into a shared table"),
-                      ("MC_ProcessBrokenHor.cfg", "a simulation's own horizon replacing the settings' default")):
+                      ("MC_ProcessBrokenHor.cfg", "a simulation's own horizon replacing the settings' default"),
+                      ("MC_ProcessBrokenLim.cfg", "an intake-limit edit written into the loader's shared table")):
         rb = C.run_tlc("MC_Process", cfg=cfg, workers=4, timeout=1200)
         out.tlc_runs.append(dict(name=cfg[:-4] + " (must be refuted)", **rb.summary()))
         if not rb.violated:
@@ -41,6 +42,8 @@ def run_types():
     return {
         "r_alb_kf": dict(cc="ALB", preset="known_to_fail_for_ALB", options=kf),
         "r_arg_kf": dict(cc="ARG", preset="known_to_fail_for_ALB", options=kf),
+        "r_dji_capoff": dict(cc="DJI", preset="net_nuclear_resilient_caps_off",
+                             options=dict(P["net_nuclear_resilient"], intake_constraints="disabled_for_humans")),
         "r_arg_own48": dict(cc="ARG", preset="net_baseline_own_horizon_48", options=dict(P["net_baseline"], NMONTHS=48)),
         "r_arg_herd": dict(cc="ARG", preset="net_baseline_custom_herd", options=dict(P["net_baseline"], meat_cattle_head=5000000, pig_head=100000)),
         "r_arg_base": dict(cc="ARG", preset="net_baseline", options=P["net_baseline"]),
